@@ -31,7 +31,7 @@ ANCHORS = [("canopen.network", "PeriodicMessageTask"), ("canopen.network", "Netw
            ("canopen.nmt", "NmtBase.send_command"), ("canopen.nmt", "NmtBase.on_command"),
            ("canopen.nmt", "NmtMaster.start_node_guarding"), ("canopen.nmt", "NmtMaster.stop_node_guarding"),
            ("canopen.node.local", "LocalNode.set_data"), ("canopen.node.local", "LocalNode.__init__")]
-RULE = ("case = bus flavour (cyclic tasks with / without modify_data), node ids, default of object 0x1017, 1..6 PDO maps "
+RULE = ("case = bus flavour (cyclic tasks with / without modify_data), node ids, registration order of the nodes incl. 0..3 nodes without PDO support at any position, default of object 0x1017, 1..6 PDO maps "
         "(COB-ID, initial payload) on the rpdo/tpdo of a remote and a local node, and a call sequence over SYNC producer, "
         "PDO maps (incl. assignments of the cob_id / period attributes followed by start() with the same or no period), heartbeat producer (start/stop/update, NMT commands sent and received, writes of 0x1017 and of another "
         "object), node guarding and Network.disconnect; periods 0, omitted, 1 ms .. 100 s, heartbeat times 0..65535; "
@@ -83,6 +83,20 @@ def _make_od():
     return od
 
 
+def _bare_node(node_id):
+    import canopen
+    from canopen.node.base import BaseNode
+
+    class MonitorNode(BaseNode):
+        """passive node: no SDO / PDO / NMT services"""
+        def associate_network(self, network):
+            self.network = network
+
+        def remove_network(self):
+            self.network = canopen.network._UNINITIALIZED_NETWORK
+    return MonitorNode(node_id, canopen.ObjectDictionary())
+
+
 def _build(c):
     import canopen
     from canopen import objectdictionary as odm
@@ -96,9 +110,11 @@ def _build(c):
     odl.add_object(hb)
     loc = canopen.LocalNode(c["local"], odl)
     rem = canopen.RemoteNode(c["remote"], odr)
-    net.add_node(loc)
-    net.add_node(rem)
     nodes = {"loc": loc, "rem": rem}
+    # registration order of the nodes; an int entry is a node WITHOUT PDO support (a bare BaseNode subclass,
+    # which Network accepts and Network.disconnect must tolerate): in the model a node with zero maps
+    for entry in c.get("order", ["loc", "rem"]):
+        net.add_node(nodes[entry] if isinstance(entry, str) else _bare_node(entry))
     maps = []
     for (who, side, no), (cob, data) in zip(SLOTS, c["pdos"]):
         m = getattr(nodes[who], side)[no]
@@ -475,8 +491,19 @@ def gen_config(rng):
         cob = rng.choice([0x180 + local, 0x200 + remote, 0x280 + j, 0x80, 0x700 + local, 0x7FF, 0x800, 0x1ABCDE, rng.randint(1, 0x7FF)])
         ln = rng.choice([0, 1, 2, 3, 8, rng.randint(1, 8)])
         pdos.append([cob, [rng.choice([0, 0xFF, rng.randrange(256)]) for _ in range(ln)]])
-    return dict(kind="seq", modify=rng.random() < 0.5, local=local, remote=remote,
-                hb_default=rng.choice([0, 0, 1, 500, 1000, 65535, rng.randint(0, 65535)]), pdos=pdos)
+    c = dict(kind="seq", modify=rng.random() < 0.5, local=local, remote=remote,
+             hb_default=rng.choice([0, 0, 1, 500, 1000, 65535, rng.randint(0, 65535)]), pdos=pdos)
+    r = rng.random()
+    if r < 0.4:
+        # nodes without PDO support at various positions among the registered nodes
+        order = ["loc", "rem"] if rng.random() < 0.5 else ["rem", "loc"]
+        free = [x for x in range(1, 128) if x not in (local, remote)]
+        for nid in rng.sample(free, rng.choice([1, 1, 2, 3])):
+            order.insert(rng.randrange(len(order) + 1), nid)
+        c["order"] = order
+    elif r < 0.5:
+        c["order"] = ["rem", "loc"]
+    return c
 
 
 def gen_op(rng, c, focus=None):
@@ -570,6 +597,10 @@ def boundary_cases():
         mk([["PdoStart", 0, 10], ["PdoStart", 1, 20], ["PdoStart", 2, 30], ["PdoStart", 3, 40], ["SyncStart", 5], ["HbStart", 7], ["GuardStart", 9], ["Disconnect"],
             ["PdoStart", 0, 10], ["SyncStart", 6], ["NmtCmd", 129], ["NmtCmd", 1], ["HbStart", 3], ["GuardStart", 1], ["Disconnect"], ["SyncStop"], ["GuardStop"]])
         mk([["Disconnect"], ["PdoStart", 0, 10], ["ObjWrite", HB_INDEX, 5], ["NmtCmd", 128], ["PdoUpdate", 0]], hb_default=9)
+        # nodes without PDO support registered before / between / after the nodes whose maps are running
+        for order in ([9, "loc", "rem"], ["loc", 9, "rem"], ["rem", 9, "loc"], ["loc", "rem", 9], [9, 10, "rem", 11, "loc", 12]):
+            mk([["PdoStart", 0, 10], ["PdoStart", 1, 20], ["PdoStart", 2, 30], ["PdoStart", 3, 40], ["SyncStart", 5], ["Disconnect"], ["PdoStop", 0]],
+               order=order)
         # everything interleaved
         mk([["SyncStart", 10], ["PdoStart", 0, 10], ["HbStart", 10], ["GuardStart", 10], ["SyncStart", 11], ["PdoStart", 0, 11], ["HbStart", 11], ["GuardStart", 11],
             ["SyncStop"], ["PdoStop", 0], ["HbStop"], ["GuardStop"]])
@@ -588,6 +619,11 @@ def shrink(c):
     ops = c["ops"]
     for i in range(len(ops) - 1, -1, -1):
         yield dict(c, ops=ops[:i] + ops[i + 1:])
+    order = c.get("order")
+    if order is not None:
+        for i, e in enumerate(order):
+            if not isinstance(e, str):
+                yield dict(c, order=order[:i] + order[i + 1:])
     if len(c["pdos"]) > 1 and all(not op[0].startswith("Pdo") or op[1] < len(c["pdos"]) - 1 for op in ops):
         yield dict(c, pdos=c["pdos"][:-1])
 
